@@ -215,6 +215,13 @@ _CONTAINER_MUTATORS = ('append', 'extend', 'insert', 'pop', 'remove', 'clear', '
                        'add', 'discard', 'sort', 'reverse', '__setitem__', '__delitem__')
 
 
+class HostMod:
+    """a real standard-library module"""
+
+    def __init__(self, name, real, overrides=None):
+        self.name, self.real, self.overrides = name, real, overrides or {}
+
+
 class ApplyRecord:
     def __init__(self, cls, ctx, args, out, loc, path):
         self.cls, self.ctx, self.args, self.out, self.loc, self.path = cls, ctx, args, out, loc, path
@@ -344,9 +351,26 @@ class Libs:
         return isinstance(obj, DataT)
 
     # ----------------------------------------------------------- modules
+    # pure standard-library modules whose functions only ever see configuration data (ints, strings, lists of
+    # those): used as they are.  Callables of the analysed program never reach them (partial / reduce / map are
+    # modelled separately).
+    HOST_MODULES = ('itertools', 'operator', 'collections', 'typing', 'enum', 'numbers', 'abc', 'string', 'types',
+                    'collections.abc', 'dataclasses', 'contextlib', 're', 'sys')
+
     def module(self, dotted):
         if dotted in self._mods:
             return self._mods[dotted]
+        if dotted in self.HOST_MODULES:
+            import importlib
+            real = importlib.import_module(dotted)
+            over = {}
+            if dotted == 'dataclasses':
+                over = {'dataclass': self._dataclass, 'field': self._dc_field}
+            if dotted == 'contextlib':
+                over = {'contextmanager': self._unsupported('contextlib.contextmanager')}
+            m = HostMod(dotted, real, over)
+            self._mods[dotted] = m
+            return m
         raise AnalysisError('unknown-primitive', 'import of external module %s' % dotted)
 
     def _build(self):
@@ -365,7 +389,7 @@ class Libs:
             'set': set, 'frozenset': frozenset, 'map': lambda f, *its: [self.interp.call(f, list(a), {}) for a in zip(*its)],
             'hasattr': self._hasattr, 'getattr': self._getattr3, 'id': id, 'type': self._type, 'callable': callable,
             'divmod': divmod, 'pow': pow, 'slice': slice, 'repr': repr, 'hash': hash, 'iter': iter, 'next': next,
-            'object': Marker('object'), 'property': self._unsupported('property'),
+            'object': Marker('object'), 'property': Marker('property'), 'classmethod': Marker('classmethod'),
             'True': True, 'False': False, 'None': None, 'Ellipsis': Ellipsis, 'NotImplemented': NotImplemented,
         })
         # ---------------------------------------------------------- torch
@@ -417,6 +441,13 @@ class Libs:
             'hypot': lambda a, b: self._sqrt(self.binop(operator.add, self.binop(operator.pow, a, 2),
                                                          self.binop(operator.pow, b, 2))),
             't': lambda x: self._torch_transpose(x, 0, 1), 'swapaxes': self._torch_transpose,
+            'concat': self._torch_cat, 'concatenate': self._torch_cat,
+            'hstack': lambda ts: self._torch_cat(ts, 1 if list(self.iterate(ts))[0].ndim > 1 else 0),
+            'vstack': lambda ts: self._xstack(ts, 2, 0), 'row_stack': lambda ts: self._xstack(ts, 2, 0),
+            'dstack': lambda ts: self._xstack(ts, 3, 2),
+            'tile': lambda x, dims: self._tile(x, list(dims)),
+            'full': lambda size, fill_value, dtype=None, device=None, **k: self._full(size, fill_value, tag=self._dtype_tag(dtype, 'default'), device=device),
+            'full_like': lambda x, fill_value, dtype=None, **k: ops.retag_dims(self._full(x.shape, fill_value, tag=self._dtype_tag(dtype, x.dtype), device=x.device), x.dims),
             'swapdims': self._torch_transpose,
             'movedim': self._movedim, 'moveaxis': self._movedim, 'permute': lambda x, dims: ops.permute(x, list(dims)),
             'empty': self._torch_zeros, 'empty_like': self._zeros_like, 'flatten': self._flatten,
@@ -453,12 +484,68 @@ class Libs:
         self._mods['pkg_resources'] = ExtMod('pkg_resources', {'resource_stream': self._resource_stream})
         self._mods['functools'] = ExtMod('functools', {'wraps': lambda f: (lambda g: g),
                                                        'lru_cache': self._lru_cache, 'cache': self._lru_cache(None),
-                                                       'partial': self._unsupported('functools.partial')})
+                                                       'partial': self._partial, 'reduce': self._reduce,
+                                                       'total_ordering': lambda c: c})
         self._mods['math'] = ExtMod('math', {'sqrt': self._np_sqrt, 'pi': np.pi, 'ceil': lambda x: int(np.ceil(x)),
                                              'floor': lambda x: int(np.floor(x)), 'log2': lambda x: float(np.log2(x))})
         self._mods['warnings'] = ExtMod('warnings', {'warn': lambda *a, **k: None})
         self._mods['os'] = ExtMod('os', {})
         self._mods['copy'] = ExtMod('copy', {'copy': self._unsupported('copy.copy'), 'deepcopy': self._unsupported('copy.deepcopy')})
+
+    def _partial(self, f, *a, **k):
+        interp = self.interp
+
+        def bound(*more, **kw):
+            return interp.call(f, list(a) + list(more), dict(k, **kw))
+        bound.__name__ = 'partial'
+        return bound
+
+    def _reduce(self, f, seq, *init):
+        it = self.iterate(seq)
+        if init:
+            acc = init[0]
+        else:
+            try:
+                acc = next(it)
+            except StopIteration:
+                raise PyExc('TypeError', 'reduce() of empty iterable with no initial value', loc=self.interp.loc())
+        for x in it:
+            acc = self.interp.call(f, [acc, x], {})
+        return acc
+
+    def _dc_field(self, default=None, default_factory=None, **k):
+        return ('__dc_field__', default, default_factory)
+
+    def _dataclass(self, cls=None, **opts):
+        """@dataclass on a class of the analysed program: synthesises __init__ from the annotated fields"""
+        if cls is None:
+            return lambda c: self._dataclass(c, **opts)
+        if not isinstance(cls, PyClass):
+            raise AnalysisError('unknown-construct', 'dataclass() of %s' % type(cls).__name__)
+        fields = list(getattr(cls, 'annotated', []))
+        params, body, env = [], [], {}
+        for name in fields:
+            if name in cls.ns:
+                v = cls.ns[name]
+                if isinstance(v, tuple) and len(v) == 3 and v[0] == '__dc_field__':
+                    if v[2] is not None:
+                        env['_dcf_' + name] = v[2]
+                        params.append('%s=None' % name)
+                        body.append('    self.%s = _dcf_%s() if %s is None else %s' % (name, name, name, name))
+                        continue
+                    v = v[1]
+                env['_dcd_' + name] = v
+                params.append('%s=_dcd_%s' % (name, name))
+            else:
+                params.append(name)
+            body.append('    self.%s = %s' % (name, name))
+        src = 'def __init__(self%s):\n%s\n' % (''.join(', ' + q for q in params), '\n'.join(body) or '    pass')
+        import ast as _ast
+        node = _ast.parse(src).body[0]
+        cls.ns['__init__'] = self.interp.synth_function(node, cls, env)
+        if opts.get('frozen'):
+            cls.frozen_dataclass = True
+        return cls
 
     def _config_only(self, real, label):
         """a real numpy / math function, usable on configuration data only (shapes, index arrays, flags)"""
@@ -508,6 +595,14 @@ class Libs:
                         return real
                     return self._config_only(real, '%s.%s' % (obj.name, name))
             raise AnalysisError('unknown-primitive', '%s.%s at %s' % (obj.name, name, self.interp.loc()))
+        if isinstance(obj, HostMod):
+            if name in obj.overrides:
+                return obj.overrides[name]
+            try:
+                return getattr(obj.real, name)
+            except AttributeError:
+                raise PyExc('AttributeError', "module '%s' has no attribute '%s'" % (obj.name, name),
+                            loc=self.interp.loc())
         if isinstance(obj, DataT):
             from . import tensor_api
             return tensor_api.get(self, obj, name)
@@ -536,6 +631,17 @@ class Libs:
                             loc=self.interp.loc())
         if isinstance(obj, (str, list, tuple, dict, set, int, float, range, np.ndarray, np.generic, Fraction,
                             frozenset, slice, Q2)) or obj is None:
+            try:
+                return getattr(obj, name)
+            except AttributeError:
+                raise PyExc('AttributeError', "'%s' object has no attribute '%s'" % (type(obj).__name__, name),
+                            loc=self.interp.loc())
+        tmod = (type(obj).__module__ or '').split('.')[0]
+        omod = (getattr(obj, '__module__', '') or '').split('.')[0] if isinstance(obj, type) else ''
+        import enum as _enum
+        if tmod in self.HOST_MODULES or omod in self.HOST_MODULES or isinstance(obj, _enum.Enum) or \
+                (isinstance(obj, type) and issubclass(obj, (_enum.Enum, tuple))):
+            # objects and classes of the pure standard-library modules (enum members, namedtuple classes, ...)
             try:
                 return getattr(obj, name)
             except AttributeError:
@@ -955,6 +1061,33 @@ class Libs:
         if len(size) == 1 and isinstance(size[0], (tuple, list)):
             size = tuple(size[0])
         return ops.zeros(size, self._dtype_tag(dtype, 'default'), device=device, requires_grad=requires_grad)
+
+    def _full(self, size, fill_value, tag='default', device=None):
+        """only the zero constant is a value of the linear domain; any other constant tensor on a data path is an
+        offset (reported where it meets data), so it is not silently approximated here"""
+        if isinstance(size, int):
+            size = (size,)
+        if is_const_scalar(fill_value) and fill_value == 0:
+            return ops.zeros(tuple(size), tag, device=device)
+        raise AnalysisError('unsupported', 'constant tensor filled with %r at %s' % (fill_value, self.interp.loc()))
+
+    def _xstack(self, ts, min_dim, axis):
+        ts = list(self.iterate(ts))
+        if any(not isinstance(t, DataT) or t.ndim < min_dim for t in ts):
+            raise AnalysisError('unsupported', 'vstack / dstack of tensors with fewer than %d dims' % min_dim)
+        return ops.cat(ts, axis)
+
+    def _tile(self, x, reps):
+        if not isinstance(x, DataT):
+            raise AnalysisError('unsupported', 'tile of %s' % type(x).__name__)
+        reps = [1] * (x.ndim - len(reps)) + list(reps)
+        if len(reps) > x.ndim:
+            raise AnalysisError('unsupported', 'tile adding leading dims')
+        r = x
+        for d, n in enumerate(reps):
+            if n != 1:
+                r = ops.cat([r] * n, d)
+        return r
 
     def _zeros_like(self, x, dtype=None, device=None, requires_grad=False):
         if not isinstance(x, DataT):
